@@ -22,7 +22,7 @@ TInit == InitWith([dict |-> 4096, limit |-> 0, far |-> FALSE, cz |-> <<>>]) /\ l
 Reset ==
   /\ Is("Reset")
   /\ cfg' = [dict |-> Ev.dict, limit |-> Ev.limit, far |-> FALSE, cz |-> Ev.cz]
-  /\ ws' = W0 /\ calls' = <<>> /\ file' = <<>> /\ phase' = "write" /\ rd' = RD0 /\ obs' = <<>>
+  /\ ws' = W0 /\ calls' = <<>> /\ file' = <<>> /\ phase' = "write" /\ rd' = RD0 /\ obs' = <<>> /\ prev' = P0
   /\ run' = [id |-> Ev.id, limit |-> Ev.limit, dict |-> Ev.dict, ended |-> FALSE]
 
 Keep == UNCHANGED <<obs, run>>
